@@ -211,6 +211,12 @@ async def amain(spec: dict) -> dict:
         finished = True
     except asyncio.TimeoutError:
         rec['errors'].append('timeout waiting for the run to finish')
+        # where is everybody? (used to recognise known findings by their mechanism)
+        import threading
+        import traceback
+        frames = sys._current_frames()
+        rec['stacks_at_timeout'] = {th.name: [f'{fs.filename.split("/")[-1]}:{fs.lineno} {fs.name}' for fs in traceback.extract_stack(frames[th.ident])][-8:]
+                                    for th in threading.enumerate() if th.ident in frames}
     except BaseException as e:  # noqa
         rec['errors'].append(f'{type(e).__name__}: {e}')
     rec['finished'] = finished
